@@ -11,6 +11,7 @@ from .. import common, solvex, cfgs, monitors as mon
 
 LEVEL = "exploration"
 MOD = "C03"
+SITE_EXEMPT = {}     # evaluation sites this check cannot reach (site -> reason); see solvex.site_floor
 
 BOX = {"lo": [-1.5, -0.5], "hi": [0.9, 1.7]}
 MODES = {
@@ -111,6 +112,7 @@ def run(report, tier, seed):
     salts = common.salts_for(tier, seed)
     cps = _configs(tier, salts)
     res = solvex.explore(report, MOD, cps, classify=classify)
+    solvex.site_floor(report, res["tags"], exempt=SITE_EXEMPT)
     tags = res["tags"]
     cov = report.coverage
     exits = [t for t in tags if t.startswith("exit:")]
